@@ -394,6 +394,19 @@ def run(rep, repo, tier):
                               "R10")
   if n10 < 8:
     raise AnalysisError("instance-count only %d data-format scenarios" % n10)
+  from .c04 import rule_default_axes
+  n11 = rule_default_axes(rep, repo, [
+      ("quantized_bits", dict(bits=4, integer=1, alpha="auto")),
+      ("quantized_bits", dict(bits=4, integer=1, alpha="auto_po2")),
+      ("quantized_bits", dict(bits=4, integer=1, alpha="auto",
+                              use_stochastic_rounding=True)),
+      ("quantized_bits", dict(bits=1, integer=0, alpha="auto")),
+      ("quantized_linear", dict(bits=4, integer=1, alpha="auto")),
+      ("quantized_linear", dict(bits=4, integer=1, alpha="auto_po2"))],
+                            "R11")
+  if n11 < 30:
+    raise AnalysisError("instance-count only %d per-channel axis points" %
+                        n11)
   from .c04 import rule_call_is_pure
   n9 = rule_call_is_pure(rep, repo, [
       ("quantized_bits", dict(bits=4, integer=1, alpha="auto")),
